@@ -176,6 +176,9 @@ class _Names:
         return ("ev", s)
 
 
+_LIBERAL = {"on": False}
+
+
 def _rand_seq(rng: random.Random, nm: _Names, depth: int, kind: str, loop_depth: int,
               edge: str | None, top: bool = False) -> list:
     """kind: top | branch | body."""
@@ -198,7 +201,7 @@ def _rand_seq(rng: random.Random, nm: _Names, depth: int, kind: str, loop_depth:
             seq.append(nm())
         else:
             end_ok = True
-            if kind == "body":
+            if kind == "body" and not _LIBERAL["on"]:
                 b = seq[-1]
                 if b[0] in ("and", "or"):
                     end_ok = False
@@ -266,6 +269,27 @@ def random_core(rng: random.Random, max_events: int = 18) -> list:
 
 
 EDGE_KINDS = ("E1", "E2", "E3", "multi-start", "multi-event-break")
+
+
+def random_liberal(rng: random.Random, max_events: int = 16) -> tuple[list, str]:
+    """Liberal reading of the grammar: any sequence (also a loop body, also the top level) may
+    end in a block.  Returns a definition that carries at least one F_edge tag."""
+    _LIBERAL["on"] = True
+    try:
+        for _ in range(5000):
+            nm = _Names()
+            ast = _rand_seq(rng, nm, rng.choice([2, 2, 3]), "top", 0, None, top=True)
+            if nm.i > max_events:
+                continue
+            t = tags_of(ast)
+            if t & OUTSIDE_F:
+                continue
+            hit = sorted(t & {"E1", "E2", "E3"})
+            if hit:
+                return ast, hit[0]
+    finally:
+        _LIBERAL["on"] = False
+    raise RuntimeError("could not generate liberal definition")
 
 
 def random_edge(rng: random.Random, kind: str | None = None) -> tuple[list, str]:
